@@ -12,7 +12,17 @@ import (
 var (
 	ErrInvalidSignature = errors.New("invalid signature")
 	ErrInvalidKeyPeerId = errors.New("key peer id doesn't match the signed key and peer")
+	ErrInvalidTimestamp = errors.New("timestamp is out of range")
 )
+
+// maxTimestampMicro bounds the timestamps a value may carry. The store orders
+// timestamps in three representations: int64 (updateValues), the float64 row
+// field "t" and the unsigned big-endian index head (SetRaw, sync exchange,
+// newest-first streaming). They agree only for 0 <= ts < 2^53: a negative
+// timestamp is the greatest one in the unsigned reading, and above 2^53 distinct
+// timestamps collapse into one row value, so which of two values a replica keeps
+// would depend on their arrival order.
+const maxTimestampMicro = int64(1) << 53
 
 type KeyValue struct {
 	KeyPeerId string
@@ -42,6 +52,9 @@ func KeyValueFromProto(proto *spacesyncproto.StoreKeyValue, verify bool) (kv Key
 	innerValue := &spacesyncproto.StoreKeyInner{}
 	if err = innerValue.UnmarshalVT(proto.Value); err != nil {
 		return kv, err
+	}
+	if innerValue.TimestampMicro < 0 || innerValue.TimestampMicro >= maxTimestampMicro {
+		return kv, ErrInvalidTimestamp
 	}
 	kv.TimestampMicro = innerValue.TimestampMicro
 	identity, err := crypto.UnmarshalEd25519PublicKeyProto(innerValue.Identity)
